@@ -14,7 +14,10 @@ pub struct RoutingTable {
     // of the last bucket in the buckets array.
     buckets: Vec<Bucket>,
     node_id: NodeId,
+    #[cfg(not(kani))]
     pub routers: HashSet<SocketAddr>,
+    #[cfg(kani)]
+    pub routers: crate::verif::vset::HashSet<SocketAddr>,
 }
 
 impl RoutingTable {
